@@ -303,12 +303,20 @@ Section Erasure.
   Proof.
     intros Hinj.
     destruct g1 as [q1 ax1 a1 p1|c1 g1|m1 ops1].
-    - destruct g2 as [q2 ax2 a2 p2|c2 g2|m2 ops2]; cbn [map_gate_qubits gate_eq]; try reflexivity.
-      unfold bsr_eq. f_equal.
-      replace (Z.eqb (f q1) (f q2)) with (Z.eqb q1 q2); [reflexivity|].
-      destruct (Z.eqb_spec q1 q2) as [->|Hne]; [now rewrite Z.eqb_refl|].
-      symmetry. apply Z.eqb_neq. intros E. apply Hne.
-      apply Hinj; cbn [gate_qubits app In]; auto.
+    - destruct g2 as [q2 ax2 a2 p2|c2 g2|m2 ops2].
+      + cbn [map_gate_qubits gate_eq]. unfold bsr_eq. f_equal.
+        replace (Z.eqb (f q1) (f q2)) with (Z.eqb q1 q2); [reflexivity|].
+        destruct (Z.eqb_spec q1 q2) as [->|Hne]; [now rewrite Z.eqb_refl|].
+        symmetry. apply Z.eqb_neq. intros E. apply Hne.
+        apply Hinj; cbn [gate_qubits app In]; auto.
+      + change (gate_eq N (map_gate_qubits f (BSR q1 ax1 a1 p1)) (map_gate_qubits f (Ctrl c2 g2)))
+          with (compare_gates N (map_gate_qubits f (BSR q1 ax1 a1 p1)) (map_gate_qubits f (Ctrl c2 g2))).
+        change (gate_eq N (BSR q1 ax1 a1 p1) (Ctrl c2 g2)) with (compare_gates N (BSR q1 ax1 a1 p1) (Ctrl c2 g2)).
+        now apply compare_gates_relabel.
+      + change (gate_eq N (map_gate_qubits f (BSR q1 ax1 a1 p1)) (map_gate_qubits f (Mat m2 ops2)))
+          with (compare_gates N (map_gate_qubits f (BSR q1 ax1 a1 p1)) (map_gate_qubits f (Mat m2 ops2))).
+        change (gate_eq N (BSR q1 ax1 a1 p1) (Mat m2 ops2)) with (compare_gates N (BSR q1 ax1 a1 p1) (Mat m2 ops2)).
+        now apply compare_gates_relabel.
     - change (gate_eq N (map_gate_qubits f (Ctrl c1 g1)) (map_gate_qubits f g2))
         with (compare_gates N (map_gate_qubits f (Ctrl c1 g1)) (map_gate_qubits f g2)).
       change (gate_eq N (Ctrl c1 g1) g2) with (compare_gates N (Ctrl c1 g1) g2).
